@@ -1,3 +1,6 @@
+// `zerokit_verif` is a verification-only cfg flag, never set by cargo
+#![allow(unexpected_cfgs)]
+
 use pmtree::*;
 
 use sled::Db as Sled;
@@ -6,6 +9,33 @@ use std::thread;
 use std::time::Duration;
 
 pub struct SledDB(Sled);
+
+/// Verification hook (compiled only with `--cfg zerokit_verif`): makes the n-th storage write
+/// (`put`, `put_batch`, `close`) after arming fail with the adapter's usual error value.
+#[cfg(zerokit_verif)]
+pub mod verif_hook {
+    use std::sync::atomic::{AtomicI64, Ordering};
+
+    static FAIL_AT: AtomicI64 = AtomicI64::new(-1);
+    static CALLS: AtomicI64 = AtomicI64::new(0);
+
+    /// The `n`-th (0-based) storage write from now on fails; a negative `n` disarms the hook.
+    pub fn arm(n: i64) {
+        CALLS.store(0, Ordering::SeqCst);
+        FAIL_AT.store(n, Ordering::SeqCst);
+    }
+
+    /// Number of storage writes seen since the hook was last armed.
+    pub fn calls() -> i64 {
+        CALLS.load(Ordering::SeqCst)
+    }
+
+    pub(super) fn fires() -> bool {
+        let c = CALLS.fetch_add(1, Ordering::SeqCst);
+        let f = FAIL_AT.load(Ordering::SeqCst);
+        f >= 0 && c == f
+    }
+}
 
 impl SledDB {
     fn new_with_tries(config: <SledDB as Database>::Config, tries: u32) -> PmtreeResult<Self> {
@@ -68,6 +98,14 @@ impl Database for SledDB {
     }
 
     fn close(&mut self) -> PmtreeResult<()> {
+        #[cfg(zerokit_verif)]
+        {
+            if verif_hook::fires() {
+                return Err(PmtreeErrorKind::DatabaseError(
+                    DatabaseErrorKind::CustomError("Cannot flush database".to_string()),
+                ));
+            }
+        }
         let _ = self.0.flush().map_err(|_| {
             PmtreeErrorKind::DatabaseError(DatabaseErrorKind::CustomError(
                 "Cannot flush database".to_string(),
@@ -84,6 +122,12 @@ impl Database for SledDB {
     }
 
     fn put(&mut self, key: DBKey, value: Value) -> PmtreeResult<()> {
+        #[cfg(zerokit_verif)]
+        {
+            if verif_hook::fires() {
+                return Err(PmtreeErrorKind::TreeError(TreeErrorKind::InvalidKey));
+            }
+        }
         match self.0.insert(key, value) {
             Ok(_) => Ok(()),
             Err(_e) => Err(PmtreeErrorKind::TreeError(TreeErrorKind::InvalidKey)),
@@ -91,6 +135,12 @@ impl Database for SledDB {
     }
 
     fn put_batch(&mut self, subtree: HashMap<DBKey, Value>) -> PmtreeResult<()> {
+        #[cfg(zerokit_verif)]
+        {
+            if verif_hook::fires() {
+                return Err(PmtreeErrorKind::TreeError(TreeErrorKind::InvalidKey));
+            }
+        }
         let mut batch = sled::Batch::default();
 
         for (key, value) in subtree {
